@@ -21,7 +21,7 @@ var Props = []*pbt.Entry{
 		"random machines: 1..3 processors, Rsize 8..64, modes ha/vn/hy, R 1..3, O 1..5, Threaded 0..3, opcode subsets (1..8 draws) over all static opcodes plus one instance per dynamic family created through EventuallyCreateInstruction, 0..3 shared objects of every kind with generated parameters attached to 1..3 processors (Shared_constraints derived from the links as basm and Write_verilog do) together with a non-empty subset of the opcodes that use them, N/M/L as the opcodes need (nine in ten cases front-end shaped; one in ten with unused ports, opcodes without their resource, or cmd/procbuilder's default -inputs 1 -outputs 1), OnlyDestRegs on/off with the requirement tree derived from the programs, CommentedVerilog on/off, external IO 0..2/0..2 and random bonds; one case in six is a dataflow machine from gen.HandshakeMachine; "+ruleCommon,
 		genRandom, prop),
 	pbt.Def("sweep",
-		"feature sweep (TestSweep enumerates it exhaustively, the rapid entry samples it): every static opcode alone and with nop at Rsize 8 and 32, R 1 and 2, in every mode in which it is meaningful, with exactly the ports/RAM/shared object/threads it needs; every shared-object kind x 1..3 attached processors x ha/vn/hy x Rsize 8/32, one opcode of the kind per processor, two instances on one processor; every dynamic family member once per meaningful mode and the call/stack families together; Threaded 1..3 x modes x R; OnlyDestRegs/Commented on the opcodes that implement them; a three-processor handshake pipeline with fan-out; "+ruleCommon,
+		"feature sweep (TestSweep enumerates it exhaustively, the rapid entry samples it): every static opcode alone and with nop at Rsize 8 and 32, R 1 and 2, in every mode in which it is meaningful, with exactly the ports/RAM/shared object/threads it needs; every shared-object kind x 1..3 attached processors x ha/vn/hy x Rsize 8/32, one opcode of the kind per processor, two instances on one processor; every dynamic family member once per meaningful mode and the call/stack families together; Threaded 1..3 x modes x R; OnlyDestRegs/Commented on the opcodes that implement them; a three-processor handshake pipeline with fan-out; every pair of opcodes inside a group that shares helper declarations through unique[]/OnlyOne (cmpflag, input-received, output-valid, stack/queue/uart/kbd state machine, call and register stacks) and every subset of the RAM (r2m m2r r2mri m2rri) and channel (wrd wwr chc chw) families; every machine is front-end shaped (only the ports, memories, shared objects, threads and modes the opcodes need); "+ruleCommon,
 		genSweep, prop),
 }
 
